@@ -39,6 +39,17 @@ theorem wr_length_of_lt (b : List UInt8) (i : Nat) (v : UInt8) (h : i < b.length
 theorem wr_eq_set (b : List UInt8) (i : Nat) (v : UInt8) (h : i < b.length) : wr b i v = b.set i v := by
   simp [wr, h]
 
+@[simp] theorem wr_cons_zero (a : UInt8) (l : List UInt8) (v : UInt8) : wr (a :: l) 0 v = v :: l := by
+  simp [wr]
+
+theorem wr_cons_succ (a : UInt8) (l : List UInt8) (i : Nat) (v : UInt8) : wr (a :: l) (i + 1) v = a :: wr l i v := by
+  unfold wr
+  by_cases h : i < l.length <;> simp [h]
+
+@[simp] theorem wr_cons_one (a : UInt8) (l : List UInt8) (v : UInt8) : wr (a :: l) 1 v = a :: wr l 0 v := wr_cons_succ a l 0 v
+@[simp] theorem wr_cons_two (a : UInt8) (l : List UInt8) (v : UInt8) : wr (a :: l) 2 v = a :: wr l 1 v := wr_cons_succ a l 1 v
+@[simp] theorem wr_cons_three (a : UInt8) (l : List UInt8) (v : UInt8) : wr (a :: l) 3 v = a :: wr l 2 v := wr_cons_succ a l 2 v
+
 theorem rd_append_left (a b : List UInt8) (i : Nat) (h : i < a.length) : rd (a ++ b) i = rd a i := by
   simp [rd, List.getD_eq_getElem?_getD, List.getElem?_append_left h]
 
